@@ -125,7 +125,7 @@ func TestNamedScalarAndVectorTypes(t *testing.T) {
 		cfg.Off = map[string]bool{"retattr-align": true, "freeze-metadata": true}
 		m, _ := gen.Module(rt, cfg)
 		noise := gen.DrawNoiseWithAliases(rt)
-		noise.VecAlias = true
+		noise.VecAlias, noise.FnAlias = true, false
 		x := m.TextNoisy(noise)
 		hx.Eval(1)
 		hx.Trace(test, "ll", x)
